@@ -95,7 +95,11 @@ func callCmd(conn *client.Conn, name string, a []string, v []string) {
 }
 
 func nastyArg(r *gen.R) string {
-	switch r.N(14) {
+	switch r.N(16) {
+	case 14: // text that would mean something to a formatter further down
+		return r.Pick("battery at 100%", "%", "50% off", "%s%d%v", "uptime 99.9% ", "%!(NOVERB)", "a%20b", "%%", "100%\r")
+	case 15:
+		return r.Bytes(r.Range(1, 10), "ab%% sdvx0.+-#")
 	case 0:
 		return ""
 	case 1:
